@@ -1,6 +1,7 @@
 package reedsolomon
 
 import (
+	"github.com/makiuchi-d/gozxing/verifhook"
 	errors "golang.org/x/xerrors"
 )
 
@@ -18,8 +19,10 @@ func NewReedSolomonEncoder(field *GenericGF) *ReedSolomonEncoder {
 }
 
 func (this *ReedSolomonEncoder) buildGenerator(degree int) *GenericGFPoly {
+	verifhook.Touch("rsenc.cache", this, false)
 	size := len(this.cachedGenerators)
 	if degree >= size {
+		verifhook.Touch("rsenc.cache", this, true)
 		lastGenerator := this.cachedGenerators[size-1]
 		for d := size; d <= degree; d++ {
 			poly, _ := NewGenericGFPoly(
